@@ -564,7 +564,7 @@ class Rmcp(object):
         if self._stop_keep_alive:
             self._stop_keep_alive()
 
-        if self._session.activated is False:
+        if self._session is None or self._session.activated is False:
             log().debug('Session already closed')
             return
 
